@@ -4,7 +4,7 @@
     is counted, what the counts decide, and — by the accounting invariant of Inv/Refs.v, proved
     for every reachable state — that an actor some strong handle (or the registry) points to is
     always counted. *)
-From Hannibal Require Import Model.Sys Inv.C05 Inv.C04 Inv.Refs Inv.Refs2.
+From Hannibal Require Import Model.Sys Inv.C05 Inv.C04 Inv.Refs Inv.Refs2 Inv.C05b Chk.C05.
 
 (** every new handle of a strong kind is counted on the waiting closure, a weak one on nothing *)
 Theorem C05_strong_counted_weak_not :
@@ -72,3 +72,48 @@ Theorem C05_registry_keeps_alive :
   forall tr s ty a x, run init tr = Acc s -> reg s ty = Some a -> actors s a = Some x -> 1 <= a_tx x.
 Proof. exact registered_means_referenced. Qed.
 Print Assumptions C05_registry_keeps_alive.
+
+(** * Upgrading fails for ever once no strong handle is left
+
+    [prov_run] (Chk/C05.v) runs the model together with the discipline "a new strong handle to an
+    actor that has had one before is made while the count is not zero" - the harness obtains
+    strong handles only by spawning, cloning, converting, upgrading and from the registry, and
+    the extracted [chk_C05] checks the discipline on every implementation trace. On every such
+    execution, of any length: once the count of references to an actor's waiting submit closure
+    has returned to zero, it is zero in every later state ... *)
+Theorem C05_no_resurrection :
+  forall tr1 tr2 s1 b1 s2 b2 a x1,
+  prov_run init [] tr1 = Some (s1, b1) -> actors s1 a = Some x1 -> In a b1 -> a_tx x1 = 0 ->
+  prov_run s1 b1 tr2 = Some (s2, b2) -> exists x2, actors s2 a = Some x2 /\ a_tx x2 = 0.
+Proof. exact no_resurrection. Qed.
+Print Assumptions C05_no_resurrection.
+
+(** ... so every later upgrade of any weak handle to it fails. *)
+Theorem C05_upgrade_fails_for_ever :
+  forall tr1 tr2 s1 b1 s2 b2 a x1 h k ok s3,
+  prov_run init [] tr1 = Some (s1, b1) -> actors s1 a = Some x1 -> In a b1 -> a_tx x1 = 0 ->
+  prov_run s1 b1 tr2 = Some (s2, b2) -> handles s2 h = Some (a, k) -> step s2 (EvUpg h ok) = Acc s3 ->
+  ok = false.
+Proof. exact upgrade_fails_for_ever. Qed.
+Print Assumptions C05_upgrade_fails_for_ever.
+
+(** the discipline restricts the model's traces, it does not replace them *)
+Theorem C05_discipline_refines_the_model :
+  forall tr, chk_C05 tr = true -> accepts tr = true.
+Proof.
+  intros tr H. unfold chk_C05 in H. destruct (prov_run init [] tr) as [[s b]|] eqn:E; [|discriminate].
+  unfold accepts. rewrite (prov_run_acc _ _ _ _ _ E). reflexivity.
+Qed.
+Print Assumptions C05_discipline_refines_the_model.
+
+Example C05_discipline_examples :
+  let c := {| sc_bound := None; sc_timeout := None; sc_failto := false; sc_strat := RestartOnly;
+              sc_stream := false; sc_entry := 2; sc_ty := 0 |} in
+  (* spawn, downgrade, drop the only strong handle: a strong handle out of nothing is refused,
+     although the bare model (which does not ask where handles come from) accepts it *)
+  chk_C05 [EvSpawn 0 c; EvHandle 0 0 KAddr; EvHandle 1 0 KWAddr; EvDrop 0; EvHandle 2 0 KAddr] = false
+  /\ accepts [EvSpawn 0 c; EvHandle 0 0 KAddr; EvHandle 1 0 KWAddr; EvDrop 0; EvHandle 2 0 KAddr] = true
+  (* a clone made while the original lives is fine; the failing upgrade afterwards is what the model demands *)
+  /\ chk_C05 [EvSpawn 0 c; EvHandle 0 0 KAddr; EvHandle 1 0 KWAddr; EvHandle 2 0 KAddr; EvDrop 0; EvDrop 2; EvUpg 1 false] = true
+  /\ chk_C05 [EvSpawn 0 c; EvHandle 0 0 KAddr; EvHandle 1 0 KWAddr; EvHandle 2 0 KAddr; EvDrop 0; EvDrop 2; EvUpg 1 true] = false.
+Proof. vm_compute. repeat split. Qed.
